@@ -415,14 +415,21 @@ def clause6(world, alone, act, obs, foreign, hist):
     m["diverged"][x] = True
 
 
-def bfs(world, alone, root_hist, depth, max_defer, budget_end, stats, first_filter=None):
-    """breadth-first search from the current state of `world`"""
-    seen = {world.key()}
-    frontier = [(world.snapshot(), list(root_hist), 0)]
+# first actions after which the account life cycle has changed (a name released, an account gone, a session ended): what
+# the OTHER client can then do with the name is where hand-over effects show, so these are explored to the full depth
+# from every seed and under every VERIF_SEED (the residue-class split only decides the depth of the remaining ones)
+ALWAYS_DEEP_FIRST = {"delete-account", "update", "logout"}
+
+
+def bfs(world, alone, root_hist, depth, max_defer, budget_end, stats, first_filter=None, shallow_depth=None):
+    """breadth-first search from the current state of `world`; with `shallow_depth`, first actions whose kind is not in
+    ALWAYS_DEEP_FIRST are followed to that depth only"""
+    seen = {world.key(): depth}      # state -> deepest limit it has been scheduled with
+    frontier = [(world.snapshot(), list(root_hist), depth)]
     stats["states"] += 1
     for level in range(depth):
         nxt = []
-        for snap, hist, _ in frontier:
+        for snap, hist, limit in frontier:
             world.restore(snap)
             acts = actions_of("A") + actions_of("B")
             for xx in CLIENTS:
@@ -444,11 +451,15 @@ def bfs(world, alone, root_hist, depth, max_defer, budget_end, stats, first_filt
                 clause6(world, alone, act, obs, foreign, hist)
                 k = world.key()
                 stats["outcomes"].add((act[1], obs[0]))
+                lim = limit
+                if level == 0 and shallow_depth is not None and act[1] not in ALWAYS_DEEP_FIRST:
+                    lim = shallow_depth
                 if k not in seen:
-                    seen.add(k)
                     stats["states"] += 1
-                    if level + 1 < depth:
-                        nxt.append((world.snapshot(), hist + [act], 0))
+                if seen.get(k, -1) < lim:
+                    seen[k] = lim
+                    if level + 1 < lim:
+                        nxt.append((world.snapshot(), hist + [act], lim))
         frontier = nxt
         stats["completed_depth"] = level + 1
     return depth
@@ -504,20 +515,20 @@ def specs(tier, seed, nworkers):
     hg = 20 if quick else 10
     for g in range(hg):
         deep = (not quick) or g % 2 != seed % 2
-        s.append({"mode": "E1", "seed_state": "holding2", "depth": (4 if not quick else 3) if deep else 2, "group": g, "groups": hg, "tier": tier})
+        s.append({"mode": "E1", "seed_state": "holding2", "depth": 4 if not quick else 3, "shallow_depth": None if deep else 2, "group": g, "groups": hg, "tier": tier})
     s.append({"mode": "E3", "tier": tier})
     pg = 20 if quick else 10
     for g in range(pg):
         # quick: depth 3 from this seed for one half of the first actions (the half is selected by the seed), the other
         # half to depth 2; thorough: everything to depth 4
         deep = (not quick) or g % 2 == seed % 2
-        s.append({"mode": "E1", "seed_state": "pending", "depth": (4 if not quick else 3) if deep else 2, "group": g, "groups": pg, "tier": tier})
+        s.append({"mode": "E1", "seed_state": "pending", "depth": 4 if not quick else 3, "shallow_depth": None if deep else 2, "group": g, "groups": pg, "tier": tier})
     return s
 
 
 def meta(tier, seed, results):
     return {
-        "rule": "E1: breadth-first search over request histories of two clients against the real server binary; alphabet per client: register/login (own, shared and the other's name x two own passwords), logout, info, update (rename to own/shared/taken name x passwords), delete-account, add (with session / without: temporary account), solve, get, list, delete and the four unauthenticated variants, plus the event 'apply pending background write k'; one request at a time, its own database commands answered at once, the background write of add/solve captured and deferred. States (database + pending writes + sessions) are restored from snapshots and deduplicated on a canonical form (hashes -> password last set, temporary names -> first-seen index). Roots: the empty service and three seeds (both registered and logged in; both owning problem x; A holding the shared name with a pending parse write). Quick tier: from the seeds with a pending write and with two problems, depth 3 is completed for the first actions in one residue class modulo 2 (selected by VERIF_SEED) and depth 2 for the others. After every transition clauses 1-6 of the oracle (see c17.py). Non-trivial: transitions executed in a state other than the root.",
+        "rule": "E1: breadth-first search over request histories of two clients against the real server binary; alphabet per client: register/login (own, shared and the other's name x two own passwords), logout, info, update (rename to own/shared/taken name x passwords), delete-account, add (with session / without: temporary account), solve, get, list, delete and the four unauthenticated variants, plus the event 'apply pending background write k'; one request at a time, its own database commands answered at once, the background write of add/solve captured and deferred. States (database + pending writes + sessions) are restored from snapshots and deduplicated on a canonical form (hashes -> password last set, temporary names -> first-seen index). Roots: the empty service and three seeds (both registered and logged in; both owning problem x; A holding the shared name with a pending parse write). Quick tier: from the seeds with a pending write and with two problems, depth 3 is completed for every first action that changes the account life cycle (rename, delete-account, logout) and for the other first actions in one residue class modulo 2 (selected by VERIF_SEED), depth 2 for the rest. After every transition clauses 1-6 of the oracle (see c17.py). Non-trivial: transitions executed in a state other than the root.",
         "samples": [{"history": [["A", "register", "u1", "pwAone"], ["A", "login", "u1", "pwAone"], ["A", "add", "x"], ["B", "add-anon", "x"], ["A", "apply", 0]]}],
         "exhaustive": all(not r.get("capped") for r in results),
         "completed_depth_per_worker": [r.get("completed_depth") for r in results],
@@ -565,7 +576,7 @@ def worker(server_bin, spec):
             root = seed_state(w, spec["seed_state"])
             budget_end = t0 + (100 if quick else 1500)
             g, gs = spec["group"], spec["groups"]
-            bfs(w, alone, root, spec["depth"], 2, budget_end, stats, first_filter=(lambda ai: ai % gs == g) if gs > 1 else None)
+            bfs(w, alone, root, spec["depth"], 2, budget_end, stats, first_filter=(lambda ai: ai % gs == g) if gs > 1 else None, shallow_depth=spec.get("shallow_depth"))
         svc.check()
     except MachineryError as e:
         res = {"ok": False, "machinery": str(e)}
